@@ -39,9 +39,9 @@ def untok(t):
 
 
 # ------------------------------------------------------------------------------------------------ builds
-def build_harness(ctx):
-    lib = ctx.build_lib("c08lib", exclude=("lib/util/src/xxhash.c",))
-    return ctx.cc("h_c08", ["h_c08.c", "weak_xxh.c", str(lib)],
+def build_harness(ctx, serial=False):
+    lib = ctx.build_lib("c08ser" if serial else "c08lib", exclude=("lib/util/src/xxhash.c",), serial_pool=serial)
+    return ctx.cc("h_c08s" if serial else "h_c08", ["h_c08.c", "weak_xxh.c", str(lib)],
                   libs=["-Wl,--wrap=hash_table_search_pre_hashed", "-Wl,--wrap=hash_table_insert_pre_hashed"] + vlib.CODEC_LIBS)
 
 
@@ -198,19 +198,8 @@ def check_bw(ctx, harness, n_scripts, stats):
             bad.append("bytes before the data area changed")
         stats["bw_scripts"] += 1
         stats["bw_calls"] += len(calls)
-        shared = 0
-        own = None
-        for (c, fl, b), res in zip(calls, il[1:-1]):
-            if fl & F_FIRST:
-                own = None
-            if own is None and len(b) and not fl & F_SPARSE and res.startswith("ok "):
-                own = int(res.split()[1]) if not fl & F_LAST else None
-            if fl & F_LAST and res.startswith("ok "):
-                pass
-        # sharing statistics from the model side are identical when the streams agree; count truncations
+        # a LAST call after which the file is shorter than "size before + bytes stored" was a deduplication hit
         sizes = [int(r.split()[2]) for r in il[1:-1] if r.startswith("ok ")]
-        trunc = sum(1 for x, y in zip(sizes, sizes[1:]) if y < x) + 0
-        # a LAST call that stores data and shrinks the file relative to "before + size" also counts
         stats["bw_truncating_scripts"] += 1 if any(
             r.startswith("ok ") and (fl & F_LAST) and int(r.split()[2]) < prev + (len(b) if len(b) and not fl & F_SPARSE else 0)
             for (c, fl, b), r, prev in zip(calls, il[1:-1], [len(pre)] + sizes)) else 0
@@ -539,29 +528,43 @@ def split_outputs(lines):
     return outs, cur
 
 
-def check_bp(ctx, harness, n_scripts, stats):
-    from collections import defaultdict
+def sc_to_json(sc):
+    d = dict(sc)
+    d["pre"] = tok(sc["pre"])
+    d["files"] = [[tok(a), b, c] for a, b, c in sc["files"]]
+    return d
+
+
+def sc_from_json(d):
+    d = dict(d)
+    d["pre"] = untok(d["pre"])
+    d["files"] = [(untok(a), b, c) for a, b, c in d["files"]]
+    return d
+
+
+def check_bp(ctx, harness, n_scripts, stats, serial_harness=None):
     scripts = []
     cdir = vlib.CORPUS / "C08"
     if cdir.exists():
         for p in sorted(cdir.glob("bp-*.json")):
-            d = json.loads(p.read_text())
-            d["pre"] = untok(d["pre"])
-            d["files"] = [(untok(a), b, c) for a, b, c in d["files"]]
-            scripts.append((d, "corpus:" + p.name))
+            scripts.append((sc_from_json(json.loads(p.read_text())), "corpus:" + p.name))
     for i in range(n_scripts):
         scripts.append((gen_bp_script(ctx.rng, big=(i % 25 == 24)), "gen:%d" % i))
     BATCH = 100
     for b0 in range(0, len(scripts), BATCH):
         batch = scripts[b0:b0 + BATCH]
         text = "\n".join(l for sc, _ in batch for l in bp_script_lines(sc)) + "\n"
-        lines, rc, err = run_harness(ctx, harness, text, timeout=900)
+        use = harness
+        if serial_harness is not None and (b0 // BATCH) % 4 == 3:
+            use = serial_harness            # same scripts' class on the serial pool (threadpool_serial.c)
+            stats["bp_serial_pool_scripts"] += len(batch)
+        lines, rc, err = run_harness(ctx, use, text, timeout=900)
         outs, rest = split_outputs(lines or [])
         if rc != 0 or len(outs) != len(batch):
             sc, name = batch[min(len(outs), len(batch) - 1)]
             ctx.violation("bp-crash:" + vlib.sha(json.dumps(bp_script_lines(sc)))[:12],
                           "real block processor aborted (rc=%s) in script %s: %s" % (rc, name, (err or "")[-600:]),
-                          {"mode": "bp", "lines": bp_script_lines(sc), "stderr": err, "partial": rest[-20:]})
+                          {"mode": "bp", "script": sc_to_json(sc), "stderr": err, "partial": rest[-20:]})
             outs = outs[:len(batch)]
         for (sc, name), out in zip(batch, outs):
             problems, res = check_bp_one(ctx, sc, out, stats, name)
@@ -573,11 +576,201 @@ def check_bp(ctx, harness, n_scripts, stats):
             key = vlib.sha(json.dumps(lines_sc))[:12]
             if spec:
                 ctx.violation("bp-readback:" + key, "block processor (%s): %s" % (name, "; ".join(spec[:3])),
-                              {"mode": "bp", "lines": lines_sc, "problems": spec + corr})
+                              {"mode": "bp", "script": sc_to_json(sc), "problems": spec + corr})
             else:
                 stats["disagreements"] += 1
                 ctx.violation("bp-corr:" + key, "block processor and model disagree (%s) while every file reads back: %s" % (name, "; ".join(corr[:3])),
-                              {"mode": "bp", "lines": lines_sc, "problems": corr}, found_input=False)
+                              {"mode": "bp", "script": sc_to_json(sc), "problems": corr}, found_input=False)
+
+
+# ------------------------------------------------------------------------------------------------ 3. tools
+def build_weak_tools(ctx, serial=False):
+    """gensquashfs / rdsquashfs / tar2sqfs / sqfs2tar from the working tree, linked with harness/weak_xxh.c instead of
+    the library's xxh32 (width taken from $VERIF_XXH_BITS at run time)"""
+    tag = "c08ser" if serial else "c08lib"
+    ctx.build_lib(tag, exclude=("lib/util/src/xxhash.c",), serial_pool=serial)
+    obj = ctx.scratch / tag / "weak_xxh.o"
+    if not obj.exists():
+        cmd = ["gcc", "-O1", "-g", "-w", "-c"] + vlib.SAN + vlib.include_flags() + vlib.BASE_DEFS + [str(vlib.HARNESS / "weak_xxh.c"), "-o", str(obj)]
+        r = vlib.sh(cmd)
+        if r.returncode != 0:
+            raise vlib.CheckFailure("cannot compile weak_xxh.c: " + r.stderr[-2000:])
+    return {t: ctx.build_tool(t, tag=tag, serial_pool=serial, extra_objs=[str(obj)]) for t in ("gensquashfs", "rdsquashfs", "tar2sqfs", "sqfs2tar")}
+
+
+def gen_tree(rng, B):
+    """{name: bytes}: few distinct full blocks (compressible two-run blocks of equal compressed size, random blocks, zero
+    blocks), few tail sizes with many distinct contents, exact duplicates, prefixes and extensions of other files"""
+    blocks = []
+    for _ in range(rng.randint(2, 6)):
+        r = rng.random()
+        if r < 0.4:
+            k = rng.randrange(1, B)
+            blocks.append(bytes([rng.randrange(256)]) * k + bytes([rng.randrange(256)]) * (B - k))
+        elif r < 0.5:
+            blocks.append(bytes(B))
+        else:
+            blocks.append(rng.randbytes(B))
+    tsizes = [rng.randrange(1, B) for _ in range(rng.randint(1, 3))]
+    tails = []
+    for _ in range(rng.randint(2, 12)):
+        n = rng.choice(tsizes)
+        tails.append(bytes(n) if rng.random() < 0.06 else (rng.randbytes(n) if rng.random() < 0.5 else bytes([rng.randrange(1, 256)]) * (n - 1) + bytes([rng.randrange(256)])))
+    files = {}
+    n = rng.randint(8, 60)
+    for k in range(n):
+        if files and rng.random() < 0.3:
+            data = rng.choice(list(files.values()))
+            r = rng.random()
+            if r < 0.2 and len(data) > B:
+                data = data[:B * rng.randint(1, len(data) // B)]
+            elif r < 0.35:
+                data = data + rng.choice(blocks)
+        else:
+            data = b"".join(rng.choice(blocks) for _ in range(rng.choice([0, 0, 1, 1, 2, 3, 5])))
+            if rng.random() < 0.85:
+                data += rng.choice(tails)
+        files["d%d/f%03d" % (k % 3, k)] = data
+    return files
+
+
+def parse_stat(text):
+    out = {}
+    for l in text.splitlines():
+        if ":" in l:
+            a, b = l.split(":", 1)
+            out[a.strip()] = b.strip()
+    return out
+
+
+def check_tools(ctx, stats, nruns):
+    import tarfile, io, hashlib
+    tools = build_weak_tools(ctx)
+    serial = build_weak_tools(ctx, serial=True) if not ctx.quick() else None
+    base = ctx.scratch / "e2e"
+    base.mkdir(exist_ok=True)
+    comps = ["gzip", "xz", "lz4", "zstd"]
+    for run_i in range(nruns):
+        rng = ctx.rng
+        B = rng.choice([4096, 4096, 8192, 131072]) if not ctx.quick() else rng.choice([4096, 8192])
+        files = gen_tree(rng, B)
+        tdir = base / ("t%d" % run_i)
+        for name, data in files.items():
+            (tdir / name).parent.mkdir(parents=True, exist_ok=True)
+            (tdir / name).write_bytes(data)
+        comp = rng.choice(comps)
+        ref_sha = None
+        configs = [(32, 1)] + [(rng.choice([0, 1, 2, 4, 8]), rng.choice([1, 2, 4, 8, 16])) for _ in range(2 if ctx.quick() else 4)]
+        for ci, (bits, jobs) in enumerate(configs):
+            tset = tools
+            if serial is not None and ci == len(configs) - 1:
+                tset = serial
+            img = base / ("i%d_%d.sqfs" % (run_i, ci))
+            env = ctx.san_env({"VERIF_XXH_BITS": str(bits)})
+            cmd = [str(tset["gensquashfs"]), "-D", str(tdir), "-c", comp, "-b", str(B), "-j", str(jobs), "-q", "-f", str(img)]
+            replay = {"mode": "tools", "seed": ctx.seed, "run": run_i, "cmd": cmd[1:], "xxh_bits": bits, "block_size": B,
+                      "files": {k: tok(v) for k, v in files.items()} if sum(map(len, files.values())) < 200000 else "see seed"}
+            r = vlib.sh(cmd, env=env, timeout=300)
+            stats["tool_runs"] += 1
+            if r.returncode != 0:
+                ctx.violation("tools-pack:%d:%d:%d" % (ctx.seed, run_i, ci), "gensquashfs (xxh %d bits, -j %d, %s) failed with exit %d: %s" % (
+                    bits, jobs, comp, r.returncode, r.stderr[-400:]), replay)
+                continue
+            sha_img = hashlib.sha256(img.read_bytes()).hexdigest()
+            if ref_sha is None:
+                ref_sha = sha_img
+            elif sha_img != ref_sha:
+                # by bw_share_sound/complete and frag_sound/share the decisions depend on the bytes only
+                ctx.violation("tools-image:%d:%d:%d" % (ctx.seed, run_i, ci), "image built with a %d-bit checksum (-j %d) differs from the one built with the 32-bit checksum" % (bits, jobs), replay)
+            out = base / ("o%d_%d" % (run_i, ci))
+            r = vlib.sh([str(tset["rdsquashfs"]), "-u", "/", "-p", str(out), "-q", str(img)], env=env, timeout=300)
+            stats["tool_runs"] += 1
+            bad = []
+            if r.returncode != 0:
+                bad.append("rdsquashfs -u exit %d: %s" % (r.returncode, r.stderr[-300:]))
+            else:
+                for name, data in files.items():
+                    pth = out / name
+                    got = pth.read_bytes() if pth.exists() else None
+                    stats["tool_files"] += 1
+                    if got != data:
+                        bad.append("%s: unpacked %s bytes, differs from the %d-byte input" % (name, "no" if got is None else len(got), len(data)))
+            # cat a few through the other read path, and look at the sharing recorded in the inodes
+            names = sorted(files)
+            for name in rng.sample(names, min(4, len(names))):
+                r = vlib.sh([str(tset["rdsquashfs"]), "-c", "/" + name, str(img)], env=env, timeout=120, text=False)
+                if r.returncode != 0 or r.stdout != files[name]:
+                    bad.append("%s: rdsquashfs -c gives %d bytes (exit %d)" % (name, len(r.stdout), r.returncode))
+            if ci == 1:
+                seen = {}
+                for name in names:
+                    data = files[name]
+                    if data in seen and len(data) > 0:
+                        a = parse_stat(vlib.sh([str(tset["rdsquashfs"]), "-s", "/" + name, str(img)], env=env).stdout)
+                        b = parse_stat(vlib.sh([str(tset["rdsquashfs"]), "-s", "/" + seen[data], str(img)], env=env).stdout)
+                        keys = ["Fragment index", "Fragment offset", "Blocks start", "Block count"]
+                        if [a.get(k) for k in keys] != [b.get(k) for k in keys]:
+                            bad.append("%s and %s are identical but do not share storage: %s vs %s" % (name, seen[data], [a.get(k) for k in keys], [b.get(k) for k in keys]))
+                        stats["tool_shared_pairs"] += 1
+                    seen.setdefault(data, name)
+            if bad:
+                ctx.violation("tools-readback:%d:%d:%d" % (ctx.seed, run_i, ci), "pack → unpack with a %d-bit checksum (-j %d, %s, -b %d): %s" % (
+                    bits, jobs, comp, B, "; ".join(bad[:3])), dict(replay, problems=bad))
+            import shutil
+            shutil.rmtree(out, ignore_errors=True)
+            img.unlink(missing_ok=True)
+        # tar2sqfs → sqfs2tar with a weak checksum
+        tarp = base / ("t%d.tar" % run_i)
+        with tarfile.open(tarp, "w", format=tarfile.GNU_FORMAT) as tf:
+            for name in sorted(files):
+                ti = tarfile.TarInfo(name); ti.size = len(files[name]); ti.mode = 0o644
+                tf.addfile(ti, io.BytesIO(files[name]))
+        bits = rng.choice([0, 2, 4])
+        env = ctx.san_env({"VERIF_XXH_BITS": str(bits)})
+        img = base / ("tar%d.sqfs" % run_i)
+        with open(tarp, "rb") as f:
+            r = vlib.sh([str(tools["tar2sqfs"]), "-c", comp, "-b", str(B), "-j", str(rng.choice([1, 3, 8])), "-q", "-f", str(img)], stdin=f, env=env, timeout=300)
+        stats["tool_runs"] += 1
+        bad = []
+        if r.returncode != 0:
+            bad.append("tar2sqfs exit %d: %s" % (r.returncode, r.stderr[-300:]))
+        else:
+            r = vlib.sh([str(tools["sqfs2tar"]), str(img)], env=env, timeout=300, text=False)
+            stats["tool_runs"] += 1
+            if r.returncode != 0:
+                bad.append("sqfs2tar exit %d" % r.returncode)
+            else:
+                got = {}
+                with tarfile.open(fileobj=io.BytesIO(r.stdout)) as tf:
+                    for m in tf.getmembers():
+                        if m.isfile():
+                            got[m.name.lstrip("./")] = tf.extractfile(m).read()
+                for name, data in files.items():
+                    if got.get(name) != data:
+                        bad.append("%s differs after tar2sqfs → sqfs2tar" % name)
+        if bad:
+            ctx.violation("tools-tar:%d:%d" % (ctx.seed, run_i), "tar2sqfs → sqfs2tar with a %d-bit checksum: %s" % (bits, "; ".join(bad[:3])),
+                          {"mode": "tools", "seed": ctx.seed, "run": run_i, "xxh_bits": bits, "problems": bad})
+        import shutil
+        shutil.rmtree(tdir, ignore_errors=True)
+        tarp.unlink(missing_ok=True)
+        img.unlink(missing_ok=True)
+
+
+def n_bw(ctx):
+    return 3000 if ctx.quick() else 30000
+
+
+def n_bp(ctx):
+    return 800 if ctx.quick() else 8000
+
+
+def gen_only(ctx):
+    """advance ctx.rng exactly as run() does before the tools phase"""
+    for i in range(n_bw(ctx)):
+        gen_bw_script(ctx.rng, small=ctx.quick() or i % 4 != 0)
+    for i in range(n_bp(ctx)):
+        gen_bp_script(ctx.rng, big=(i % 25 == 24))
 
 
 def run(ctx):
@@ -588,8 +781,9 @@ def run(ctx):
     harness = build_harness(ctx)
     from collections import defaultdict
     stats = defaultdict(int)
-    check_bw(ctx, harness, 1500 if ctx.quick() else 20000, stats)
-    check_bp(ctx, harness, 400 if ctx.quick() else 6000, stats)
+    check_bw(ctx, harness, n_bw(ctx), stats)
+    check_bp(ctx, harness, n_bp(ctx), stats, serial_harness=None if ctx.quick() else build_harness(ctx, serial=True))
+    check_tools(ctx, stats, 4 if ctx.quick() else 40)
     ctx.cov.update({
         "evaluations": stats["bw_calls"] + stats["bp_writes"] + stats["bp_fragments"],
         "distinct_nontrivial": stats["bw_truncating_scripts"],
@@ -605,17 +799,19 @@ def run(ctx):
 
 
 def replay(ctx, path):
+    from collections import defaultdict
     body = json.loads(open(path).read())
     rp = body.get("replay", {})
-    if "lines" not in rp:
+    mode = rp.get("mode")
+    if mode not in ("bw", "bp", "tools"):
         print("replay file names a broken obligation, no input to replay:", json.dumps(rp)[:500])
         return 1
     ctx.lean_build(["sqfsmodel"])
-    harness = build_harness(ctx)
-    text = "\n".join(rp["lines"]) + "\n"
-    impl, rc, err = run_harness(ctx, harness, text)
-    print("impl :", impl, "rc", rc, err[-500:] if err else "")
-    if rp.get("mode") == "bw":
+    if mode == "bw":
+        harness = build_harness(ctx)
+        text = "\n".join(rp["lines"]) + "\n"
+        impl, rc, err = run_harness(ctx, harness, text)
+        print("impl :", impl, "rc", rc, err[-500:] if err else "")
         model = ctx.driver(["c08"], text)
         print("model:", model)
         calls = []
@@ -626,4 +822,24 @@ def replay(ctx, path):
         bad = bw_oracle(calls, impl[1:-1], final) if impl and rc == 0 else ["crash"]
         print("read-back problems:", bad)
         return 1 if bad or impl != model else 0
-    return 1
+    if mode == "bp":
+        harness = build_harness(ctx)
+        sc = sc_from_json(rp["script"])
+        lines, rc, err = run_harness(ctx, harness, "\n".join(bp_script_lines(sc)) + "\n")
+        print("\n".join(lines or []))
+        if rc != 0:
+            print("harness exit", rc, err[-1500:])
+            return 1
+        problems, _ = check_bp_one(ctx, sc, lines, defaultdict(int), "replay")
+        for k, m in problems:
+            print(k.upper(), m)
+        return 1 if problems else 0
+    # tools: the run is identified by (seed, tier, run index); re-run that tier's tool runs with the recorded seed
+    ctx2 = vlib.Ctx("C08", body.get("tier", "quick"), seed=body.get("seed", 0))
+    stats = defaultdict(int)
+    # consume the same random numbers as run() did before the tools phase
+    gen_only(ctx2)
+    check_tools(ctx2, stats, 4 if ctx2.quick() else 40)
+    for v in ctx2.violations:
+        print(v["what"])
+    return 1 if ctx2.violations else 0
